@@ -23,8 +23,6 @@ from vcheck import coq_list, coq_string
 
 HERE = os.path.dirname(os.path.dirname(os.path.abspath(__file__)))
 CORPUS = os.path.join(HERE, "corpus", "C05", "witnesses.jsonl")
-FINDINGS_CORPUS = os.path.join(HERE, "corpus", "C05", "findings.jsonl")
-AMPLIFICATION = "decompression-amplification"
 PHRASES = os.path.join(HERE, "coq", "gen", "GenGoroutinesWriter.json")
 
 OUTCOME = {"2xx": "O2xx", "4xx": "O4xx", "5xx": "O5xx", "crash": "OCrash", "hang": "OHang", "leak": "OLeak", "abort": "OAbort"}
@@ -71,6 +69,36 @@ def body_to_coq(d):
     raise ValueError("unknown route " + r)
 
 
+def obs_to_coq(o):
+    canary_ok = o.get("canary", "") in ("", "2xx")
+    body = int(o.get("body_len", 0))
+    return "{| ob_outcome := %s; ob_canary_ok := %s; ob_alloc_kb := %d; ob_body_kb := %d; ob_decoded_kb := %d; ob_limit_kb := %d |}" % (
+        OUTCOME.get(o["outcome"], "OOther"), b(canary_ok), int(o.get("alloc_kb", 0)), body // 1024,
+        int(o.get("decoded_len", body)) // 1024, int(o.get("limit", 0)) // 1024)
+
+
+def limcase_to_coq(c):
+    l = c["l"]
+    return "{| lm_id := %d; lm_ce := %s; lm_decoded := %d; lm_limit := %d; lm_obs := %s |}" % (
+        c["id"], coq_string(l.get("ce", "")), int(l["decoded"]), int(c["obs"].get("limit", 0)), obs_to_coq(c["obs"]))
+
+
+FRAME_TABLE = {"datadogCFRequestDec": "samples_v3", "elasticBulkDec": "samples_v3", "zipkinNDDecoderV2": "tempo_traces"}
+
+
+def framecase_to_coq(c):
+    f = c.get("f_model") or c["f"]
+
+    def line(l):
+        return "{| nl_len := %d; nl_ok := %s; nl_rows := %d |}" % (l["len"], b(l["ok"]), l["rows"])
+    body = "{| nb_lines := %s; nb_tail := %s; nb_end := %s |}" % (
+        coq_list([line(l) for l in f["lines"]]), ("Some " + line(f["tail"])) if f.get("tail") else "None",
+        "EndReadErr" if f.get("read_err") else "EndClean")
+    rows = int((c["obs"].get("rows") or {}).get(FRAME_TABLE[f["dec"]], 0))
+    return "{| fc_id := %d; fc_dec := %s; fc_body := %s; fc_obs := %s; fc_rows := %d |}" % (
+        c["id"], coq_string(f["dec"]), body, obs_to_coq(c["obs"]), rows)
+
+
 def case_to_coq(c):
     d = c.get("d")
     o = c["obs"]
@@ -79,10 +107,7 @@ def case_to_coq(c):
             coq_string(d.get("ce", "")), b(d.get("gz_ok")), coq_string(d.get("ct", "")), b(d.get("wire_ok")), body_to_coq(d))
     else:
         req = '{| q_ce := ""; q_gz_ok := false; q_ct := ""; q_wire_ok := false; q_body := BBytes |}'
-    canary_ok = o.get("canary", "") in ("", "2xx")
-    ob = "{| ob_outcome := %s; ob_canary_ok := %s; ob_alloc_kb := %d; ob_body_kb := %d |}" % (
-        OUTCOME.get(o["outcome"], "OOther"), b(canary_ok), int(o.get("alloc_kb", 0)), int(o.get("body_len", 0)) // 1024)
-    return "{| c_id := %d; c_req := %s; c_obs := %s |}" % (c["id"], req, ob)
+    return "{| c_id := %d; c_req := %s; c_obs := %s |}" % (c["id"], req, obs_to_coq(o))
 
 
 def gcase_to_coq(c):
@@ -90,23 +115,25 @@ def gcase_to_coq(c):
     o = c["obs"]
     req = "{| g_handler := %s; g_ce := %s; g_gz_ok := %s; g_ct := %s; g_wire_ok := %s |}" % (
         coq_string(d.get("handler", "")), coq_string(d.get("ce", "")), b(d.get("gz_ok")), coq_string(d.get("ct", "")), b(d.get("wire_ok")))
-    canary_ok = o.get("canary", "") in ("", "2xx")
-    ob = "{| ob_outcome := %s; ob_canary_ok := %s; ob_alloc_kb := %d; ob_body_kb := %d |}" % (
-        OUTCOME.get(o["outcome"], "OOther"), b(canary_ok), int(o.get("alloc_kb", 0)), int(o.get("body_len", 0)) // 1024)
-    return "{| gc_id := %d; gc_req := %s; gc_obs := %s |}" % (c["id"], req, ob)
+    return "{| gc_id := %d; gc_req := %s; gc_obs := %s |}" % (c["id"], req, obs_to_coq(o))
 
 
 def eval_cases(ck, name, cases):
     gen = [c for c in cases if c["stream"] == "generic"]
-    rest = [c for c in cases if c["stream"] != "generic"]
+    lim = [c for c in cases if c["stream"] == "limit"]
+    frm = [c for c in cases if c["stream"] == "frame"]
+    rest = [c for c in cases if c["stream"] not in ("generic", "limit", "frame")]
     # the route table is the one regenerated from controller/*.go on this run (gen_routes)
     txt = ("From Coq Require Import List String Ascii ZArith NArith Bool.\n"
-           "From Qryn Require Import model.IngestRobust model.IngestPipe gen.GenGoroutinesWriter.\n"
+           "From Qryn Require Import model.IngestRobust model.IngestPipe model.IngestFraming gen.GenGoroutinesWriter.\n"
            "Import ListNotations.\nOpen Scope string_scope.\nOpen Scope Z_scope.\n"
            "Definition cases : list case := [\n  " + ";\n  ".join(case_to_coq(c) for c in rest) + "].\n"
            "Definition gcases : list gcase := [\n  " + ";\n  ".join(gcase_to_coq(c) for c in gen) + "].\n"
-           "Definition M := Eval vm_compute in (mismatches cases ++ g_mismatches gen_routes gcases)%list.\nPrint M.\n"
-           "Definition V := Eval vm_compute in (spec_violations cases ++ g_spec_violations gen_routes gcases)%list.\nPrint V.\n")
+           "Definition lcases : list limcase := [\n  " + ";\n  ".join(limcase_to_coq(c) for c in lim) + "].\n"
+           "Definition fcases : list framecase := [\n  " + ";\n  ".join(framecase_to_coq(c) for c in frm) + "].\n"
+           "Definition M := Eval vm_compute in (mismatches cases ++ g_mismatches gen_routes gcases ++ lim_mismatches lcases ++ frame_mismatches gen_frame_progs fcases)%list.\nPrint M.\n"
+           "Definition V := Eval vm_compute in (spec_violations cases ++ g_spec_violations gen_routes gcases ++ lim_spec_violations lcases "
+           "++ frame_spec_violations 16777216 fcases)%list.\nPrint V.\n")
     rc, out = ck.coq_eval(name, txt)
     if rc != 0:
         return None, None, out
@@ -165,8 +192,16 @@ def run_translator(ck):
            "Definition CEL := Eval vm_compute in (gen_content_encodings, gen_content_encoding_default_400).\nPrint CEL.\n"
            "Definition PPA := Eval vm_compute in (gen_pprof_parse_appends, gen_pprof_parse_append_in_loop).\nPrint PPA.\n"
            "Definition IM := Eval vm_compute in filter (fun f => negb (prefix \"controller/\" f)) gen_unmarshal_importers.\nPrint IM.\n"
-           "Definition NST := Eval vm_compute in gen_unmarshal_sites_total.\nPrint NST.\n")
-    ok, out = ck.coq_make(["model/IngestRobust.vo", "model/IngestPipe.vo", "gen/GenGoroutinesWriter.vo"])
+           "Definition NST := Eval vm_compute in gen_unmarshal_sites_total.\nPrint NST.\n"
+           "Definition LSO := Eval vm_compute in limiter_source_ok gen_content_encodings gen_ce_body_wraps gen_lim_new gen_lim_read gen_err_decoded_too_long "
+           "gen_pb_pool_limit gen_set_global_limit_pb.\nPrint LSO.\n"
+           "Definition SVO := Eval vm_compute in (server_source_ok gen_server_serve gen_server_read_timeout_ms gen_server_read_header_timeout_ms, gen_server_serve, "
+           "gen_server_read_timeout_ms, gen_server_read_header_timeout_ms).\nPrint SVO.\n"
+           "Definition LKS := Eval vm_compute in (lockstep_ok gen_on_entries_calls gen_on_entries_lockstep, "
+           "map (fun l => let '(f, fn, v, _) := l in (fn, v)) (filter (fun l => let '(_, _, v, _) := l in negb (String.eqb v \"lockstep\")) gen_on_entries_lockstep)).\nPrint LKS.\n"
+           "Definition LSW := Eval vm_compute in (ce_all_limited gen_content_encodings gen_ce_body_wraps, gen_ce_body_wraps).\nPrint LSW.\n")
+    txt = txt.replace("model.IngestPipe gen.GenGoroutinesWriter", "model.IngestPipe model.IngestFraming gen.GenGoroutinesWriter")
+    ok, out = ck.coq_make(["model/IngestRobust.vo", "model/IngestPipe.vo", "model/IngestFraming.vo", "gen/GenGoroutinesWriter.vo"])
     if not ok:
         ck.obligation("generated file compiles", False, out[-1500:])
         return False
@@ -234,6 +269,14 @@ def run_translator(ck):
                   val("PPA").replace(" ", "") == "(1,false)", "appends to the result of Parse, inside a loop: " + val("PPA"))
     ck.obligation("package unmarshal is imported by controller/ only (its code runs on the handler goroutine up to parserDoer.Do, else below Decode() in a goroutine with tamePanic)",
                   val("IM") == "[]", "other importers: " + val("IM"))
+    ck.obligation("every Content-Encoding WithOverallContextMiddleware accepts puts helpers.LimitDecoded around the decompressor; LimitDecoded, its Read, "
+                  "the 400 error, pbPool.limit and SetGlobalLimit are the modelled source (limiter_in_source)", val("LSO") == "true",
+                  "limiter_source_ok = %s; every encoding limited, (case, r.Body expression): %s (see coq/gen/GenGoroutinesWriter.v, section framing)" % (val("LSO"), val("LSW")))
+    ck.obligation("main.go httpStart serves the router with an http.Server that has ReadTimeout 2 min and ReadHeaderTimeout 30 s (server_config_in_source)",
+                  val("SVO").startswith("(true"), "(ok, Serve call, ReadTimeout ms, ReadHeaderTimeout ms) = " + val("SVO"))
+    ck.obligation("the slices handed to onEntries at the non-literal call sites change length only in lockstep (append / [:0] / make applied to every one of them "
+                  "in the same statement list; derived arguments are make / fastFillArray of their length)", val("LKS").startswith("(true"),
+                  "(ok, sites that are not lockstep with the reason) = " + val("LKS"))
     ck.extra["handler_side_panic_sites"] = val("NSI")
     ck.extra["index_slice_assert_sites_in_package_unmarshal_(all;_those_not_handler-side_run_below_Decode_under_tamePanic)"] = val("NST")
     ck.extra["goroutines_in_writer"] = val("NG")
@@ -247,6 +290,8 @@ def run_translator(ck):
 
 
 def nontrivial(c):
+    if c["stream"] in ("limit", "frame"):
+        return True
     if c["stream"] in ("struct", "generic"):
         return "/wellformed" not in c["class"] or "+ce" in c["class"]
     return "unchanged" not in c["class"] or "+" in c["class"]
@@ -264,7 +309,7 @@ def load(p):
 
 def strip_case(c):
     """the replayable part of a case (what `ingestfuzz --cases` needs)"""
-    return {k: c[k] for k in ("id", "stream", "class", "req", "d") if k in c}
+    return {k: c[k] for k in ("id", "stream", "class", "req", "d", "l", "f", "f_model") if k in c}
 
 
 def write_cases(path, cases):
@@ -329,18 +374,13 @@ def run_harness(ck):
                 ck.obligation("harness ingestfuzz ran the corpus", False, out[-1500:])
                 return
             cases += load(outp)
-        if os.path.exists(FINDINGS_CORPUS) and AMPLIFICATION in ck.known_findings():
-            outp = os.path.join(ck.work, "findings_out.jsonl")
-            rc, out = ck.go_run("ingestfuzz", ["--cases", FINDINGS_CORPUS, "--out", outp, "--deadline-ms", 20000], timeout=600)
-            if rc != 0:
-                ck.obligation("harness ingestfuzz ran the witnesses of the open finding", False, out[-1500:])
-                return
-            cases += load(outp)
         n = ck.n(600, 15000)
         nb = ck.n(2000, 50000)
         ng = ck.n(400, 10000)
+        nl = ck.n(60, 1500)
+        nf = ck.n(150, 4000)
         outp = os.path.join(ck.work, "gen_out.jsonl")
-        rc, out = ck.go_run("ingestfuzz", ["--seed", ck.seed, "--n", n, "--nbytes", nb, "--ngeneric", ng, "--max-bad", 12, "--phrases-file", PHRASES, "--out", outp], timeout=6000)
+        rc, out = ck.go_run("ingestfuzz", ["--seed", ck.seed, "--n", n, "--nbytes", nb, "--ngeneric", ng, "--nlimit", nl, "--nframe", nf, "--max-bad", 12, "--phrases-file", PHRASES, "--out", outp], timeout=6000)
         if rc != 0:
             ck.obligation("harness ingestfuzz ran", False, out[-1500:])
             return
@@ -365,34 +405,22 @@ def run_harness(ck):
         mism += m
         viol += v
     byid = {c["id"]: c for c in cases}
-    # open finding: a small gzip body that expands about 1000:1 is read without limit.  Exactly the witnesses of
-    # corpus/C05/findings.jsonl, and only when the allocation clause is the ONLY thing spec_ok objects to
-    # (answered, canary served), are reported as KNOWN-FINDING; everything else stays a violation.
-    known = ck.known_findings()
-    amp = [c for c in cases if c["class"].startswith("corpus/finding-" + AMPLIFICATION)]
-    if amp and AMPLIFICATION in known:
-        hit = []
-        for c in amp:
-            o = c["obs"]
-            only_alloc = (o["outcome"] in ("2xx", "4xx", "5xx") and o.get("canary", "") in ("", "2xx")
-                          and any(k == "Content-Encoding" and v == "gzip" for k, v in c["req"].get("headers", []))
-                          and int(o.get("alloc_kb", 0)) > 65536 + 64 * (int(o.get("body_len", 0)) // 1024))
-            if c["id"] in viol and only_alloc:
-                viol.remove(c["id"])
-                hit.append(c)
-        if hit:
-            w = max(hit, key=lambda c: c["obs"]["alloc_kb"] / max(1, c["obs"]["body_len"]))
-            ck.report_known(AMPLIFICATION, "POST %s Content-Encoding: gzip, body of %d bytes: %d KiB allocated while serving it (answered %s); %d witness(es)" % (
-                w["req"]["path"], w["obs"]["body_len"], w["obs"]["alloc_kb"], w["obs"].get("status"), len(hit)))
-        else:
-            ck.extra["finding_" + AMPLIFICATION] = "witnesses no longer exceed the allocation bound (fixed?): " + json.dumps([c["obs"] for c in amp])[:400]
-    nstruct = sum(1 for c in cases if c["stream"] in ("struct", "generic"))
+    # generator invariant of the streams whose class is predicted without the limiter: a Content-Encoding overlay stays
+    # within the decoded-size limit the router runs with (stream "limit" is the one that crosses it)
+    over = [c["id"] for c in cases if c["stream"] in ("struct", "generic") and c["obs"].get("limit")
+            and any(k == "Content-Encoding" and v in ("gzip", "snappy") for k, v in c["req"].get("headers", []))
+            and int(c["obs"].get("decoded_len", 0)) > int(c["obs"]["limit"])]
+    ck.obligation("generator: structured cases under a Content-Encoding stay within the decoded-size limit of the harness router", not over, "cases: %s" % over[:10])
+    nstruct = sum(1 for c in cases if c["stream"] in ("struct", "generic", "limit", "frame"))
+    nframe = sum(1 for c in cases if c["stream"] == "frame")
     ngeneric = sum(1 for c in cases if c["stream"] == "generic")
+    nlimit = sum(1 for c in cases if c["stream"] == "limit")
     nbytes = len(cases) - nstruct
     ck.obligation("correspondence: model predict = observed outcome class on %d structured requests" % nstruct, not mism,
                   "mismatching case ids: %s" % mism[:10])
     ck.obligation("spec oracle spec_ok accepts every observation (%d structured + %d byte-level fuzz requests): answered, alive, "
-                  "census stable, later requests served, allocation bounded, snappy limit respected, malformed structured input not answered 2xx" % (nstruct, nbytes),
+                  "census stable, later requests served, allocation within 64 MiB + 64 x max(wire size, min(decoded size, configured limit)), snappy limit respected, "
+                  "malformed structured input and compressed bodies beyond the decoded-size limit not answered 2xx" % (nstruct, nbytes),
                   not viol, "violating case ids: %s" % viol[:10])
 
     def size(c):
@@ -410,7 +438,7 @@ def run_harness(ck):
     elif mism:
         worst = min((byid[i] for i in mism), key=size)
         ck.violation({"property": "C05", "kind": "model/implementation disagree on the outcome class; the request was still answered safely",
-                      "case": strip_case(worst), "observed": worst["obs"], "broken": "correspondence IngestRobust.predict vs writer router",
+                      "case": strip_case(worst), "observed": worst["obs"], "broken": "correspondence IngestRobust.predict / IngestPipe.g_predict / IngestFraming.lim_predict vs writer router",
                       "others": [i for i in mism if i != worst["id"]][:20]}, no_input=True)
 
     # coverage
@@ -418,7 +446,7 @@ def run_harness(ck):
     hist = {}
     outcomes = {}
     for c in cases:
-        key = c["class"].split("+")[0] if c["stream"] in ("struct", "generic") else "bytes:" + c["class"].split(" ")[0]
+        key = c["class"].split("+")[0] if c["stream"] in ("struct", "generic", "limit", "frame") else "bytes:" + c["class"].split(" ")[0]
         key = "/".join(key.split("/")[:3])
         hist[key] = hist.get(key, 0) + 1
         ok = c["stream"] + ":" + c["obs"]["outcome"]
@@ -438,16 +466,184 @@ def run_harness(ck):
         ck.extra["latency_ms_(measured_confirmation_of_the_termination_theorems)"] = {
             "answered": len(lat), "median": lat[len(lat) // 2], "p99": lat[(len(lat) * 99) // 100], "max": lat[-1], "deadline": 3000}
     ck.extra["input_distribution"] = {"classes": dict(sorted(hist.items())), "outcomes": dict(sorted(outcomes.items())),
-                                      "structured_cases": nstruct, "of_which_predicted_from_the_route_table": ngeneric, "byte_level_fuzz_cases_(test_not_proof)": nbytes}
+                                      "structured_cases": nstruct, "of_which_predicted_from_the_route_table": ngeneric,
+                                      "of_which_payloads_of_an_exact_size_around_the_decoded-size_limit_(plain/gzip/snappy)": nlimit,
+                                      "of_which_NDJSON_framing_bodies_(CF,_Elasticsearch_bulk,_Zipkin_NDJSON)": nframe,
+                                      "NDJSON_framing": {
+                                          "with_a_line_of_64KiB_or_more": sum(1 for c in cases if c["stream"] == "frame" and ("64KiB" in c["class"] or "16MiB" in c["class"])),
+                                          "with_a_line_around_the_16MiB_token_limit": sum(1 for c in cases if c["stream"] == "frame" and "16MiB" in c["class"]),
+                                          "with_a_refused_line": sum(1 for c in cases if c["stream"] == "frame" and "refused-line" in c["class"]),
+                                          "unterminated_last_line": sum(1 for c in cases if c["stream"] == "frame" and "unterminated" in c["class"]),
+                                          "reader_fails_part-way": sum(1 for c in cases if c["stream"] == "frame" and "read-error" in c["class"]),
+                                          "lines_stored_by_2xx_answers": sum(sum((c["obs"].get("rows") or {}).values()) for c in cases if c["stream"] == "frame" and c["obs"]["outcome"] == "2xx")},
+                                      "decoded_size_limit_of_the_harness_router_bytes": max([int(c["obs"].get("limit", 0)) for c in cases] or [0]), "byte_level_fuzz_cases_(test_not_proof)": nbytes}
     smp = []
-    for want in ("ingest", "otlp/malformed", "zipkin", "generic", "bytes"):
+    for want in ("ingest", "otlp/malformed", "zipkin", "generic", "limit", "frame", "bytes"):
         for c in cases:
             if (c["class"].startswith(want) or (want == "bytes" and c["stream"] == "bytes")) and nontrivial(c):
                 r = dict(c["req"])
                 r["body_hex"] = (r.get("body_hex", "")[:80] + "...") if len(r.get("body_hex", "")) > 80 else r.get("body_hex", "")
-                smp.append({"class": c["class"], "req": r, "d": c.get("d"), "obs": {k: c["obs"].get(k) for k in ("outcome", "status", "canary", "alloc_kb")}})
+                smp.append({"class": c["class"], "req": r, "d": c.get("d") or c.get("l") or c.get("f_model") or c.get("f"), "obs": {k: c["obs"].get(k) for k in ("outcome", "status", "canary", "alloc_kb", "decoded_len", "limit")}})
                 break
     ck.add_samples(smp)
+
+
+def run_stall(ck):
+    """a real listener built like main.go httpStart (timeouts regenerated from the source, scaled down 600:1) over the real
+    router; a client that sends part of a body and then nothing"""
+    try:
+        side = json.load(open(PHRASES))
+        rt, rht = int(side["server_read_timeout_ms"]), int(side["server_read_header_timeout_ms"])
+    except (OSError, ValueError, KeyError):
+        ck.obligation("server timeouts written by the translator", False, PHRASES)
+        return
+    scale = 600
+    srt, srht = (rt + scale - 1) // scale, (rht + scale - 1) // scale
+    window = srt + 300 if srt > 0 else 400
+    outp = os.path.join(ck.work, "stall_out.jsonl")
+    args = ["--stall", "--stall-window-ms", window, "--read-timeout-ms", srt, "--read-header-timeout-ms", srht, "--out", outp]
+    if ck.tier != "quick":
+        args.append("--stall-all")
+    rc, out = ck.go_run("ingestfuzz", args, timeout=600)
+    if rc != 0:
+        ck.obligation("harness ingestfuzz --stall ran", False, out[-1500:])
+        return
+    cases = load(outp)
+    cls = {2: "O2xx", 4: "O4xx", 5: "O5xx"}
+    rows = ["{| st_id := %d; st_total := %d; st_sent := %d; st_window := %d; st_read_timeout := %d; st_answered := %s; st_status_class := %s; st_stuck := %s; "
+            "st_canary_ok := %s; st_released_ms := %d |}" % (
+                c["id"], c["total"], c["sent"], c["obs"]["window_ms"], c["obs"]["read_timeout_ms"], b(c["obs"]["answered"]),
+                cls.get(c["obs"]["status"] // 100, "OOther"), b(c["obs"]["stuck_in_handler"]), b(c["obs"]["canary_during"] == "2xx"), c["obs"]["released_ms"])
+            for c in cases]
+    txt = ("From Coq Require Import List String ZArith Bool.\nFrom Qryn Require Import model.IngestRobust model.IngestPipe model.IngestFraming.\n"
+           "Import ListNotations.\nOpen Scope Z_scope.\n"
+           "Definition scases : list stallcase := [\n  " + ";\n  ".join(rows) + "].\n"
+           "Definition M := Eval vm_compute in stall_mismatches scases.\nPrint M.\n"
+           "Definition V := Eval vm_compute in stall_spec_violations scases.\nPrint V.\n")
+    rc, out = ck.coq_eval("C05_stall", txt)
+    flat = " ".join(out.split())
+    m = re.search(r"M = \[(.*?)\]\s*: list Z", flat)
+    v = re.search(r"V = \[(.*?)\]\s*: list Z", flat)
+    if rc != 0 or not m or not v:
+        ck.obligation("stall cases evaluated inside Coq", False, out[-1500:])
+        return
+    mism = [int(x) for x in re.findall(r"-?\d+", m.group(1))]
+    viol = [int(x) for x in re.findall(r"-?\d+", v.group(1))]
+    byid = {c["id"]: c for c in cases}
+    ck.obligation("stalled bodies: on %d requests over a real listener built like main.go httpStart (ReadTimeout %d ms, ReadHeaderTimeout %d ms in the source; run at 1:%d) "
+                  "the handler is where read_body (model/IngestFraming.v) says at the end of the window" % (len(cases), rt, rht, scale), not mism,
+                  "mismatching stall case ids: %s" % mism[:10])
+    ck.obligation("stalled bodies: no goroutine is left in handler code by a client that stops sending; other clients are served meanwhile; an incomplete body is not answered 2xx",
+                  not viol, "violating stall case ids: %s" % viol[:10])
+    if viol:
+        w = min((byid[i] for i in viol), key=lambda c: c["total"])
+        ck.violation({"property": "C05", "kind": "a client that stops sending in the middle of a body holds a handler goroutine (in %s) for as long as it keeps the connection: "
+                      "no response and no read deadline within the window" % w["obs"].get("where", "?"),
+                      "stall_case": {k: w[k] for k in ("id", "route", "path", "ct", "total", "sent")}, "observed": w["obs"],
+                      "others": [i for i in viol if i != w["id"]][:20],
+                      "replay": "ingestfuzz --stall --read-timeout-ms %d --read-header-timeout-ms %d   (POST %s, Content-Length %d, send %d bytes, then nothing)" % (
+                          srt, srht, w["path"], w["total"], w["sent"])})
+    elif mism:
+        w = byid[mism[0]]
+        ck.violation({"property": "C05", "kind": "stalled body: model and implementation disagree", "stall_case": {k: w[k] for k in ("id", "route", "path", "ct", "total", "sent")},
+                      "observed": w["obs"], "broken": "correspondence IngestFraming.read_body vs net/http server as configured in main.go"}, no_input=True)
+    ck.coverage["evaluations"] += len(cases)
+    ck.coverage["distinct_nontrivial"] += sum(1 for c in cases if c["sent"] < c["total"])
+    ck.coverage["rule"] += "stall: one request per route family over a real TCP listener, body cut at half (thorough: also at 0 and len-1) or complete; non-trivial = incomplete body. "
+    ck.extra["stalled_body_observations"] = {"cases": len(cases), "source_read_timeout_ms": rt, "source_read_header_timeout_ms": rht, "scale": scale,
+                                             "incomplete_bodies_given_up_with": sorted(set(c["obs"]["status"] for c in cases if c["sent"] < c["total"])),
+                                             "stuck_in_handler": sum(1 for c in cases if c["obs"]["stuck_in_handler"])}
+    ck.add_samples([{"class": "stall/" + c["route"], "total": c["total"], "sent": c["sent"], "obs": c["obs"]} for c in cases if c["sent"] < c["total"]][:1])
+
+
+RERR = {"nil": "ENil", "eof": "EEof", "under": "EUnder", "toolong": "ETooLong"}
+LIMREAD_CORPUS = os.path.join(HERE, "corpus", "C05", "limread.jsonl")
+
+
+def run_limread(ck):
+    """the REAL helpers.LimitDecoded over a scripted decompressor and a scripted consumer, Read by Read, against lim_run"""
+    if ck.replay and "limread_case" not in json.load(open(ck.replay)):
+        return
+    if not ck.go_build("limread"):
+        ck.obligation("harness limread builds against the repository (helpers.LimitDecoded exists)", False, ck.build_out[-1500:])
+        return
+    runs = []
+    if ck.replay:
+        p = os.path.join(ck.work, "limread_replay.jsonl")
+        open(p, "w").write(json.dumps(json.load(open(ck.replay))["limread_case"]) + "\n")
+        runs.append(("replay", ["--cases", p]))
+    else:
+        if os.path.exists(LIMREAD_CORPUS):
+            runs.append(("corpus", ["--cases", LIMREAD_CORPUS]))
+        runs.append(("gen", ["--seed", ck.seed, "--n", ck.n(1200, 40000)]))
+    cases = []
+    for tag, args in runs:
+        outp = os.path.join(ck.work, "limread_%s.jsonl" % tag)
+        rc, out = ck.go_run("limread", args + ["--out", outp], timeout=600)
+        if rc != 0:
+            ck.obligation("harness limread ran (%s)" % tag, False, out[-1500:])
+            ck.violation({"property": "C05", "kind": "helpers.LimitDecoded panicked or the harness failed", "stderr": out[-2000:]}, no_input=True)
+            return
+        got = load(outp)
+        if tag == "corpus":
+            for c in got:
+                c["id"] += 3000000
+        cases += got
+    other = [c["id"] for c in cases if any(o["err"] == "other" for o in c["obs"])]
+    ck.obligation("limread: every error of the limiter is nil, io.EOF, the decompressor's own, or a typed 400", not other, "cases: %s" % other[:10])
+    mism, viol = [], []
+    shard = 4000
+    for k in range(0, len(cases), shard):
+        part = [c for c in cases[k:k + shard] if c["id"] not in other]
+        rows = ["{| rc_id := %d; rc_global := %d; rc_decoded := %d; rc_calls := %s; rc_obs := %s |}" % (
+            c["id"], c["global"], c["decoded"], coq_list(["(%d, %d)" % (a, bb) for a, bb in c["calls"]]),
+            coq_list(["(%d, %s)" % (o["n"], RERR[o["err"]]) for o in c["obs"]])) for c in part]
+        txt = ("From Coq Require Import List String ZArith Bool.\nFrom Qryn Require Import model.IngestRobust model.IngestPipe model.IngestFraming.\n"
+               "Import ListNotations.\nOpen Scope Z_scope.\n"
+               "Definition rcases : list rcase := [\n  " + ";\n  ".join(rows) + "].\n"
+               "Definition M := Eval vm_compute in r_mismatches rcases.\nPrint M.\n"
+               "Definition V := Eval vm_compute in r_spec_violations rcases.\nPrint V.\n")
+        rc, out = ck.coq_eval("C05_limread_%d" % (k // shard), txt)
+        flat = " ".join(out.split())
+        m = re.search(r"M = \[(.*?)\]\s*: list Z", flat)
+        v = re.search(r"V = \[(.*?)\]\s*: list Z", flat)
+        if rc != 0 or not m or not v:
+            ck.obligation("limread cases evaluated inside Coq", False, out[-1500:])
+            return
+        mism += [int(x) for x in re.findall(r"-?\d+", m.group(1))]
+        viol += [int(x) for x in re.findall(r"-?\d+", v.group(1))]
+    byid = {c["id"]: c for c in cases}
+    ck.obligation("limiter correspondence: on %d scripted consumers/decompressors the real helpers.LimitDecoded returns, Read by Read, the (n, error) "
+                  "that lim_run (model/IngestFraming.v) computes" % len(cases), not mism, "mismatching limread case ids: %s" % mism[:10])
+    ck.obligation("limiter oracle: the real reader never delivers more than pbPool.limit bytes and never reports EOF for a longer body", not viol,
+                  "violating limread case ids: %s" % viol[:10])
+
+    def size(c):
+        return len(c["calls"]) * 10**6 + c["decoded"]
+    if viol:
+        w = min((byid[i] for i in viol), key=size)
+        ck.violation({"property": "C05", "kind": "helpers.LimitDecoded hands over more decoded bytes than the configured limit, or ends a longer body with EOF",
+                      "limread_case": {k: w[k] for k in ("id", "class", "global", "decoded", "calls")}, "observed": w["obs"],
+                      "others": [i for i in viol if i != w["id"]][:20], "replay": "bin/check C05 --replay <this file>   (or: limread --cases <file with the limread_case line>)"})
+    elif mism:
+        w = min((byid[i] for i in mism), key=size)
+        ck.violation({"property": "C05", "kind": "limiter: model and implementation disagree on a Read result",
+                      "limread_case": {k: w[k] for k in ("id", "class", "global", "decoded", "calls")}, "observed": w["obs"],
+                      "broken": "correspondence IngestFraming.lim_run vs helpers.LimitDecoded", "replay": "bin/check C05 --replay <this file>"})
+    hist = {}
+    distinct = set()
+    for c in cases:
+        hist[c["class"]] = hist.get(c["class"], 0) + 1
+        distinct.add(hashlib.sha1(json.dumps([c["global"], c["decoded"], c["calls"]]).encode()).hexdigest())
+    ck.coverage["evaluations"] += len(cases)
+    ck.coverage["distinct_nontrivial"] += len(distinct)
+    ck.coverage["rule"] += ("limread: scripted Read sequences (buffers 0..limit+5 and io.ReadAll-sized, chunks 1..70 or everything, corrupt streams) over bodies "
+                            "within / exactly at / just over / far over the limit; every case non-trivial, distinct by sha1 of the script. ")
+    ck.extra["limread_distribution"] = {"classes": dict(sorted(hist.items())),
+                                        "reads": sum(len(c["calls"]) for c in cases),
+                                        "reads_answered_too_long": sum(1 for c in cases for o in c["obs"] if o["err"] == "toolong")}
+    ck.add_samples([{"class": c["class"], "global": c["global"], "decoded": c["decoded"], "calls": c["calls"][:5], "obs": c["obs"][:5]}
+                    for c in cases if c["class"] == "just-over"][:1])
 
 
 SVC = {"spans": 0, "attrs": 1, "prof": 2}
@@ -625,15 +821,22 @@ def run(ck):
         "rendezvous of an unbuffered channel as interpreted by run_prog / sys_run (compared with the real runtime by harness pipefuzz on scripted decoders)",
         "C05: reasons on the allow-lists of panic-capable expressions outside the recover scopes (site_allow_list), of the non-literal onEntries call sites "
         "(entries_call_allow) and the static types of the stored context values (ctx_writers_model) are by reading; the inventories themselves are regenerated "
-        "and compared on every run. Open finding decompression-amplification (findings.d/C05.txt)",
+        "and compared on every run",
+        "C05 (model/IngestFraming.v): compress/gzip and golang/snappy readers below helpers.LimitDecoded are ORACLES (any chunking, any error at any point); "
+        "io.ReadAll's loop (read until an error, EOF = success) as read",
     ]
     okgen = run_translator(ck)
     if okgen:
         ck.coq_props()
     else:
         ck.theorems = []
-    if not (ck.replay and "pipe_case" in json.load(open(ck.replay))):
+    rp = json.load(open(ck.replay)) if ck.replay else {}
+    if not ("pipe_case" in rp or "limread_case" in rp):
         run_harness(ck)
-    run_pipe(ck)
+        if not ck.replay:
+            run_stall(ck)
+    if "limread_case" not in rp:
+        run_pipe(ck)
+    run_limread(ck)
     for fid, what in ck.known_findings().items():
         pass  # no open finding for C05: defects 8 and 9 are fixed (findings.d/C05.txt)
